@@ -25,6 +25,48 @@ class AnalysisError(Exception):
     """The analysis itself is broken (anchor vanished, parse error, floor not met)."""
 
 
+def normalize_tree(tree: ast.Module) -> int:
+    """Normal form the rules are written against (semantics-preserving, applied once per parse):
+
+    ``t = <expr>; return t`` with ``t`` occurring nowhere else in the function  ->  ``return <expr>``
+
+    The expression keeps its source position, so reports still point at it.  Returns the
+    number of rewrites."""
+    n_rw = 0
+    for fn in [n for n in ast.walk(tree) if isinstance(n, (ast.FunctionDef, ast.AsyncFunctionDef))]:
+        counts: dict[str, int] = {}
+        for x in ast.walk(fn):
+            if isinstance(x, ast.Name):
+                counts[x.id] = counts.get(x.id, 0) + 1
+            elif isinstance(x, (ast.Global, ast.Nonlocal)):
+                for nm in x.names:
+                    counts[nm] = counts.get(nm, 0) + 10
+        for holder in ast.walk(fn):
+            for fld in ("body", "orelse", "finalbody"):
+                lst = getattr(holder, fld, None)
+                if not isinstance(lst, list):
+                    continue
+                k = 0
+                while k + 1 < len(lst):
+                    a, r = lst[k], lst[k + 1]
+                    if (
+                        isinstance(a, ast.Assign)
+                        and len(a.targets) == 1
+                        and isinstance(a.targets[0], ast.Name)
+                        and isinstance(r, ast.Return)
+                        and isinstance(r.value, ast.Name)
+                        and r.value.id == a.targets[0].id
+                        and counts.get(r.value.id, 0) == 2
+                    ):
+                        new = ast.Return(value=a.value)
+                        ast.copy_location(new, a)
+                        new.end_lineno, new.end_col_offset = r.end_lineno, r.end_col_offset
+                        lst[k : k + 2] = [new]
+                        n_rw += 1
+                    k += 1
+    return n_rw
+
+
 # ---------------------------------------------------------------------------
 # Data model
 # ---------------------------------------------------------------------------
@@ -371,6 +413,7 @@ class ProgramDB:
                     tree = ast.parse(src, filename=rel)
                 except SyntaxError as e:
                     raise AnalysisError(f"cannot parse {rel}: {e}") from e
+                normalize_tree(tree)
                 if len(_TREE_CACHE) < 400:
                     _TREE_CACHE[key] = tree
             parts = rel[len(SRC_REL) + 1 : -3].split(os.sep)
